@@ -44,4 +44,8 @@ CLAIMED = {
    text="Metamorphic pairs: a generated UTC project and the same project with every date moved by k weeks (k from 1 week to 6 years), project starts concentrated around year ends, leap days and 53-week ISO years; both are scheduled by the real code and every reported date of the shifted run minus k weeks must equal the original run.",
    note="No model of the scheduler is needed; trusts the date-shifting of the model (all dates are kept in the model, none in free text). Resource time zones and month/year durations are outside the relation.",
    technique="metamorphic property-based testing (Hypothesis): week-shift equivariance"),
+ "C15": dict(
+   text="One generated project model is rendered under two spellings drawn from the listed meaning-preserving rewrites (consistent renaming incl. deliberately colliding local ids, absolute/relative references, depends/precedes inversion incl. gapped edges, shift reference vs inline hours, comments/whitespace/CRLF, macro extraction); both texts are scheduled by the real code and all dates must agree after mapping identifiers back.",
+   note="The model keeps true dependency targets, so the comparison does not depend on how scriptplan resolved either text; macro parameters are not generated (undocumented here).",
+   technique="metamorphic property-based testing (Hypothesis): two renderings of one model"),
 }
